@@ -4,7 +4,7 @@ N=$1; shift
 cd /verif
 if ! git -C /repo diff --quiet; then echo "/repo has uncommitted changes"; exit 2; fi
 git -C /repo apply /verif/seeded/$N/patch.diff || { echo "patch does not apply"; exit 2; }
-export VERIF_SCRATCH_BASE=/tmp/me
+export VERIF_SCRATCH_BASE=/tmp/me VERIF_OUT_DIR=/tmp/me/evalmut.$N.outdir
 mkdir -p /tmp/me
 OUT=/verif/seeded/$N/detection.txt; : > $OUT
 for P in "$@"; do
@@ -14,5 +14,10 @@ for P in "$@"; do
   echo "== vcheck $P ${TIER:-quick}: exit $RC in $((E-S))s" | tee -a $OUT
   grep -E "^VIOLATION|^  sig=|^CHECK-BROKEN|^KNOWN" /tmp/me/evalmut.$N.$P.out | cut -c1-400 | head -12 | tee -a $OUT
 done
+# keep the replay files named in detection.txt next to it
+mkdir -p /verif/seeded/$N/replays
+for f in $(grep -o "replay=[^ ]*" $OUT | cut -d= -f2); do [ -f "$f" ] && cp "$f" /verif/seeded/$N/replays/; done
+sed -i "s#replay=/tmp/me/evalmut.$N.outdir/replays/[A-Z0-9]*/#replay=seeded/$N/replays/#" $OUT
 git -C /repo checkout -- .
+rm -rf /tmp/me/evalmut.$N.outdir
 git -C /repo diff --quiet && echo "(repo restored)"
